@@ -1,14 +1,59 @@
 """C51 scale-varied EKOs agree with the central EKO to the working order (X-conf, S2).
 
-xi = 1: both schemes must reproduce the unvaried operator bit by bit (QCD 1-4, QED x QCD).
+xi = 1: both schemes must reproduce the unvaried operator bit by bit (QCD 1-4, QED x QCD; fixed-flavour
+and across a threshold, upward and downward).
 xi^2 in {1/4, 1/2, 2, 4}: the strong coupling is scaled through alpha_s(ref) = 0.35 lambda,
 lambda = 2^-3 .. 2^-8, and the relative difference to the unvaried operator must vanish at least
 like a_s^n (scaling-exponent oracle in the asymptotic window, vf.core.scaling). Exact Mellin
 moments through the real runner (moment probe); channels: full flavour matrix (singlet dominated),
-ns- (u - ubar) and ns+ combinations.
-QED x QCD cards are run with a negligible alpha_em (1e-10): they exercise the QCD axis of the QED
-code path (coupling steps, QED kernels, QED variation dispatchers); terms proportional to alpha_em
-that the fixed-alpha_em prescription documents as neglected are below the noise floor there.
+ns- (u - ubar) and ns+ combinations, and (property-local) the blocks of the operator in the
+(Sigma, g) / valence / pure non-singlet directions built from flavour rows and columns (+ photon blocks on the joint ladder): the
+difference of each block is measured against the size of the whole operator, so an error confined to a
+small block is judged on its own exponent instead of being hidden behind the largest entry.
+
+Two coupling ladders for QED x QCD cards
+  * negligible alpha_em (1e-10): the QCD axis of the QED code path (coupling steps, QED kernels, QED variation
+    dispatchers); every alpha_em-proportional term is below the noise floor there;
+  * alpha_em(ref) = 0.12 lambda (a_em ~ a_s / 3, case key `aem_ratio`): both couplings shrink together, so that
+    the alpha_em-proportional variation terms are judged as well. At order (n, m) the anomalous dimensions are
+    complete through lambda^min(n, m) (a_s^k for k <= n, a_em^k for k <= m, a_s a_em), hence "only missing higher
+    orders are probed" reads: the residual vanishes at least like lambda^min(n, m).
+
+Family `exponent+1`: why the exponentiated scheme must reach a_s^(n+1) on fixed-flavour paths
+-----------------------------------------------------------------------------------------
+Definition of the scheme (documentation, "scheme A"): the couplings at both ends of the evolution are taken at
+the shifted scale, a' = a_s(xi^2 mu^2), and the anomalous dimension gamma(a) = sum_{k<n} gamma_k a^(k+1) is
+*re-expressed* in a': with L = ln xi^2 and da/dln mu^2 = -sum_k beta_k a^(k+2),
+    a(mu^2) = a' + beta0 L a'^2 + (beta1 L + beta0^2 L^2) a'^3 + (beta2 L + 5/2 beta0 beta1 L^2 + beta0^3 L^3) a'^4 + ...
+and gammabar(a') is gamma(a(mu^2)) re-expanded in a' and truncated after a'^n. By construction
+    gammabar(a'(mu^2)) - gamma(a(mu^2)) = O(a^(n+1))                      (*)
+for every mu^2 of the path (the coupling solution of order n satisfies the re-expansion through a'^n: the
+coefficient of a'^k needs beta_0 .. beta_(k-2); the expanded coupling solution differs from the exact one by
+O(a^(n+1))). The unvaried operator solves d f/d ln mu^2 = -gamma(a(mu^2)) f and the exponentiated one
+d f/d ln mu^2 = -gammabar(a'(mu^2)) f over the SAME interval of ln mu^2 (both ends are shifted), so by (*) the
+two exact solutions differ by O(a^(n+1)) * ln(mu1^2/mu0^2) relative. The solution methods enumerated here do not
+spoil this: `truncated` drops homogeneous polynomials of degree n in (a1, a0) that vanish at a1 = a0, i.e.
+(a1 - a0) * O(a^(n-1)) = O(a^(n+1)) at fixed scales; the non-singlet `iterate-exact` is a closed form; the
+singlet `iterate-exact` has a midpoint-rule error ~ gamma0/beta0 (a ln(mu1^2/mu0^2))^3 / iterations^2 whose leading
+coefficient is the same in both runs (a' = a (1 + O(a))), so it cancels up to O(a^4); the iterated QED solution steps in mu^2
+and takes the couplings at the arithmetic middle of each step, its quadrature errors differ between the runs at O(a^3)/iterations.
+Therefore, for n <= 4 (`iterate-exact`: n <= 3, QED cards: n <= 2) the residual must vanish like a_s^(n+1); a residual that has
+converged to a_s^n is NOT "only missing higher orders" - it is exactly a wrong coefficient in the top line of
+`gamma_variation` (gamma[n-1] += ...), which no case of order n+1 can decide for n = 4.
+The argument does NOT hold (and the family is not applied)
+  * for the expanded scheme (only the target end is shifted, K is truncated at a^(n-1): residual exactly a^n),
+  * across a threshold (the matching is truncated at a^(n-1); its re-expansion leaves 2 beta0 L a'^n A_(n-1)).
+On the alpha_em-proportional ladder the same argument gives lambda^(min(n, m) + 1): with
+    a_em(mu^2) = a_em' + beta0qed L a_em'^2 + O(lambda^3)   (running; a_em(mu^2) = a_em' if alpha_em is fixed)
+the re-expansion of gamma(a_s(mu^2), a_em(mu^2)) through lambda^2 is
+    gamma10 a_s' + gamma01 a_em' + (gamma20 + beta0 L gamma10) a_s'^2 + gamma11 a_s' a_em' + (gamma02 + beta0qed L gamma01) a_em'^2,
+which is what `gamma_variation_qed` implements for m = 2 (the gamma11 beta L a_s'^2 a_em', a_s' a_em'^2 terms are lambda^3 and
+documented as neglected); for n = 1 the a_s'^2 term is the first one not reproduced (lambda^2). Applied for m = 2 only: for m = 1 the
+first term not reproduced (a_em'^2, no compensation term exists) is small and cancels against the a_s^3 residual inside the ladder.
+
+Signatures carry the sector that fails (singlet = (Sigma, g, photon) blocks, valence, ns = pure non-singlet combinations
+(u -+ ubar) - (c -+ cbar), (d -+ dbar) - (s -+ sbar); mixed = full / ns- / ns+ of the first version, reported only if no pure
+sector fails) and the integer power the residual has converged to.
 """
 
 import numpy as np
@@ -18,17 +63,44 @@ from vf.core.ctx import Result
 
 ID = "C51"
 LEVEL = "exploration"
-TECHNIQUE = "exhaustive enumeration of (order, scheme, ratio, method, path) through the real runner at the moment seam; bitwise oracle at xi=1, scaling-exponent oracle otherwise"
+TECHNIQUE = "exhaustive enumeration of (order, scheme, ratio, method, path, coupling ladder) through the real runner at the moment seam; bitwise oracle at xi=1, scaling-exponent oracle otherwise (a_s^n for both schemes, a_s^(n+1) for the exponentiated scheme on fixed-flavour paths)"
 LEVEL_TEXT = (
-    "for every order (QCD 1-4, QED x QCD up to (3,2) running/fixed), scheme, ratio and channel the residual to the central operator is "
-    "computed on a 6-point coupling ladder; its local exponent in the asymptotic window must reach the perturbative order"
+    "for every order (QCD 1-4, QED x QCD up to (3,2) running/fixed), scheme, ratio and channel (full matrix, ns+-, singlet/valence/photon blocks) "
+    "the residual to the central operator is computed on a 6-point coupling ladder; its local exponent in the asymptotic window must reach the "
+    "perturbative order (one more for the exponentiated scheme without thresholds, derived from the definition of the scheme); QED cards on two "
+    "ladders (alpha_em negligible; alpha_em proportional to alpha_s); threshold crossings (up in quick, down in thorough)"
 )
-LEVEL_NOTE = "moment-probe seam (N = 2, 3.5, 6); lambda ladder 2^-3..2^-8; QED axis probed with negligible alpha_em; one threshold only in thorough"
+LEVEL_NOTE = "moment-probe seam (N = 2, 3.5, 6); lambda ladder 2^-3..2^-8; alpha_em-proportional ladder only for QED orders (1,2), (2,1), (2,2)"
 FLOOR_NONTRIVIAL = 20
 
 MOMENTS = [2.0, 3.5, 6.0]
 PID = probe.FLAVOR_PIDS
 LAMBDAS = [2.0**-i for i in range(3, 9)]
+AEM_RATIO = 0.12  # alpha_em(ref) = AEM_RATIO * lambda next to alpha_s(ref) = 0.35 * lambda
+OWN = ("full", "ns-", "ns+")
+BLOCKS = ("S:qq", "S:qg", "S:gq", "S:gg", "V", "NS:Vu3", "NS:Tu3", "NS:Vd3", "NS:Td3")
+PHOTON = ("A:AA", "A:Aq", "A:qA", "A:Ag", "A:gA")
+
+
+def sector(channel):
+    """Discrete coordinate of a failure: which part of the operator does not scale.
+
+    `mixed` = the three channels of the first version (in flavour space they mix sectors: with QED, u - ubar is half
+    valence and half non-singlet); it is only reported when no pure sector fails.
+    """
+    if channel in OWN:
+        return "mixed"
+    return {"S": "singlet", "A": "singlet", "V": "valence", "N": "ns"}[channel[0]]
+
+
+_Q = [PID.index(p) for p in (1, 2, 3, 4, 5)]
+_QB = [PID.index(-p) for p in (1, 2, 3, 4, 5)]
+_G, _A = PID.index(21), PID.index(22)
+_S = np.zeros(14)
+_S[_Q + _QB] = 1.0
+_V = np.zeros(14)
+_V[_Q] = 1.0
+_V[_QB] = -1.0
 
 
 def _channels(M):
@@ -40,19 +112,84 @@ def _channels(M):
     }
 
 
+def _blocks(M, qed):
+    """Blocks of the flavour matrix in the (Sigma, g[, photon]) and total-valence directions (linear functionals of M).
+
+    Sigma = sum over d,u,s,c,b of (q + qbar), V = sum of (q - qbar); the input direction carries the weight 1/10.
+    """
+    u, ub, d, db, s, sb, c, cb = (PID.index(p) for p in (2, -2, 1, -1, 3, -3, 4, -4))
+    b = {
+        "S:qq": _S @ M @ _S / 10.0,
+        "S:qg": _S @ M[:, _G],
+        "S:gq": M[_G, :] @ _S / 10.0,
+        "S:gg": M[_G, _G],
+        "V": _V @ M @ _V / 10.0,
+        # pure non-singlet combinations (also with QED, where they are the ns-u, ns+u, ns-d, ns+d kernels):
+        # response of (u -+ ubar) - (c -+ cbar) to u, and of (d -+ dbar) - (s -+ sbar) to d
+        "NS:Vu3": (M[u, u] - M[ub, u]) - (M[c, u] - M[cb, u]),
+        "NS:Tu3": (M[u, u] + M[ub, u]) - (M[c, u] + M[cb, u]),
+        "NS:Vd3": (M[d, d] - M[db, d]) - (M[s, d] - M[sb, d]),
+        "NS:Td3": (M[d, d] + M[db, d]) - (M[s, d] + M[sb, d]),
+    }
+    if qed:
+        b.update({"A:AA": M[_A, _A], "A:Aq": M[_A, :] @ _S / 10.0, "A:qA": _S @ M[:, _A], "A:Ag": M[_A, _G], "A:gA": M[_G, _A]})
+    return b
+
+
+def _g_qq(N):
+    """gamma_ns^(0)(N) / C_F = 4 S_1(N) - 3 - 2 / (N (N + 1)) (the a_em^1 quark anomalous dimension is e_q^2 times this)."""
+    import mpmath
+
+    return float(4 * mpmath.harmonic(N) - 3 - mpmath.mpf(2) / (N * (N + 1)))
+
+
+def pinned_model(case, sec, c, v, lam):
+    """Name of the recorded defect whose closed form the failing sector follows at the smallest coupling, or None.
+
+    Two defects of the expanded scheme at QED order m >= 2 are visible on the joint ladder (residual ~ a_em^1):
+      * running alpha_em, non-singlet kernels: the factor K carries + a_em L gamma_ns^(0,1), but the pure-QED factor of the
+        non-singlet solution spans ln(mu1^2/mu0^2) (not up to xi^2 mu1^2): relative change of the kernel = + a_em L e_q^2 g(N);
+      * fixed alpha_em, matrix (singlet, valence) sectors: the QED part is evolved up to xi^2 mu1^2 together with alpha_s and K has no
+        a_em term: change = - a_em L gamma^(0,1): photon-photon: gamma = 4/3 N_c sum_q e_q^2, total valence: e_q^2 g(N) summed.
+    c, v: central / varied moment matrices at coupling scale lam (nf = 4 active). Tolerance 5 % (corrections are O(lambda)).
+    """
+    n, m = case["order"]
+    if not (case["sv"] == "expanded" and "aem_ratio" in case and m >= 2 and case["path"] == "ffns"):
+        return None
+    aem = case["aem_ratio"] * lam / (4 * np.pi)
+    L = float(np.log(case["xif2"]))
+    eu2, ed2 = 4.0 / 9.0, 1.0 / 9.0
+    worst = 0.0
+    for j, N in enumerate(MOMENTS):
+        bc, bv = _blocks(c[j], True), _blocks(v[j], True)
+        if sec == "ns" and case.get("em_running", False):
+            # up-type kernels only: for the down-type ones the a_em term is 4 times smaller and the regular lambda^2 residual still matters
+            for k, e2 in (("NS:Vu3", eu2), ("NS:Tu3", eu2)):
+                worst = max(worst, abs((bv[k] / bc[k] - 1.0) / (aem * L * e2 * _g_qq(N)) - 1.0))
+        elif sec == "singlet" and not case.get("em_running", False):
+            worst = max(worst, abs((bv["A:AA"] / bc["A:AA"] - 1.0) / (-aem * L * 4.0 * (2 * eu2 + 2 * ed2)) - 1.0))
+        elif sec == "valence" and not case.get("em_running", False):
+            worst = max(worst, abs((bv["V"] - bc["V"]) / (-aem * L * 0.2 * (2 * eu2 + 2 * ed2) * _g_qq(N)) - 1.0))
+        else:
+            return None
+    name = {"ns": "K-aem-term-without-qed-extension", "singlet": "qed-extension-without-K-aem-term", "valence": "qed-extension-without-K-aem-term"}[sec]
+    return name if worst < 0.05 else None
+
+
 def _cfg(case, sv, xif, lam):
     qed = case["order"][1] > 0
+    path = case["path"]
     c = dict(
         order=case["order"],
         method=case["method"],
         masses=[1.0, 4.5, 100.0],
-        ratios=[1.0, "inf", "inf"] if case["path"] == "ffns" else [1.0, 1.0, "inf"],
-        ref=[10.0, 4] if case["path"] == "ffns" else [3.0, 4],
+        ratios=[1.0, "inf", "inf"] if path == "ffns" else [1.0, 1.0, "inf"],
+        ref=[10.0, 4] if path == "ffns" else [3.0, 4],
         alphas=0.35 * lam,
-        alphaem=1e-10 if qed else 0.0075,
+        alphaem=(case["aem_ratio"] * lam if "aem_ratio" in case else 1e-10) if qed else 0.0075,
         em_running=case.get("em_running", False),
-        init=[5.0, 4] if case["path"] == "ffns" else [3.0, 4],
-        mugrid=[[50.0, 4]] if case["path"] == "ffns" else [[20.0, 5]],
+        init={"ffns": [5.0, 4], "wall": [3.0, 4], "wall-down": [20.0, 5]}[path],
+        mugrid={"ffns": [[50.0, 4]], "wall": [[20.0, 5]], "wall-down": [[3.0, 4]]}[path],
         sv=sv,
         xif=xif,
         # the iterated QED solution has a discretisation error ~ a_s^2/iterations^2 that differs between the
@@ -69,12 +206,48 @@ def _solve(case, sv, xif, lam):
     return m
 
 
+def requirement(case):
+    """Exponent that the property demands for this case (a_s^n; lambda^min(n, m) on the joint ladder)."""
+    n, m = case["order"]
+    return min(n, m) if "aem_ratio" in case else n
+
+
+def plus_requirement(case):
+    """Exponent of the `exponent+1` family (module docstring), or None where the argument does not hold."""
+    n, m = case["order"]
+    if case["sv"] != "exponentiated" or case["path"] != "ffns":
+        return None
+    if "aem_ratio" in case:
+        # m = 1: the first term that is not reproduced (beta0qed L gamma01 a_em'^2, small: e_q^2) competes with the a_s^3 residual of the
+        # QCD axis with the opposite sign; the residual changes sign inside the ladder (measured at (2,1), xi^2 = 2: local exponents
+        # 1.13, 1.16 right after the zero, true power 2): not decidable on this ladder, and there is no compensation term to decide
+        return min(n, m) + 1 if (n <= 2 and m >= 2) else None
+    if m > 0:
+        # iterated QED solution: steps in mu^2 with the couplings at the arithmetic middle of each step; the quadrature errors of the
+        # central and the varied run differ at O(a_s^3) / iterations (measured: a drifting a_s^3 tail at (3,1)): decidable for n <= 2 only
+        return n + 1 if n <= 2 else None
+    if case["method"] == "truncated":
+        return n + 1 if n <= 4 else None
+    if case["method"] == "iterate-exact":
+        return n + 1 if n <= 3 else None
+    return None
+
+
 def evaluate(case):
     res = Result()
     n = case["order"][0]
     sv = case["sv"]
+    qed = case["order"][1] > 0
     where = f"order={case['order']} sv={sv} xif2={case['xif2']} method={case['method']} path={case['path']} em_running={case.get('em_running', False)}"
     cls = f"sv={sv}/qcd={n},qed={case['order'][1]},run={int(case.get('em_running', False))}/{case['path']}"
+    if "aem_ratio" in case:
+        where += f" alpha_em={case['aem_ratio']}*lambda"
+        cls += "/aem~as"
+    if case.get("extra"):
+        cls += "/" + ",".join(sorted(k for k, v in case["extra"].items() if v))
+    # photon blocks only on the joint ladder: with alpha_em = 1e-10 (not scaled) they carry a constant ~ a_em L gamma_phph ~ 5e-11
+    photon = qed and "aem_ratio" in case
+    names = OWN + BLOCKS + (PHOTON if photon else ())
     try:
         if case["xif2"] == 1.0:
             lam = 1.0 / 8
@@ -87,16 +260,25 @@ def evaluate(case):
             res.info = {"max_diff_xi1": float(np.abs(c - v).max())}
             return res
         xif = case["xif2"] ** 0.5
-        resid = {k: [] for k in ("full", "ns-", "ns+")}
+        resid = {k: [] for k in names}
         for lam in LAMBDAS:
             c = _solve(case, None, 1.0, lam)
             v = _solve(case, sv, xif, lam)
-            for k in resid:
+            for k in OWN:
                 r = 0.0
                 for j in range(len(MOMENTS)):
                     a, b = _channels(c[j])[k], _channels(v[j])[k]
                     r = max(r, float(np.abs(a - b).max() / np.abs(a).max()))
                 resid[k].append(r)
+            rb = {k: 0.0 for k in names if k not in OWN}
+            for j in range(len(MOMENTS)):
+                scale = float(np.abs(c[j]).max())
+                bc, bv = _blocks(c[j], photon), _blocks(v[j], photon)
+                for k in rb:
+                    rb[k] = max(rb[k], float(abs(bc[k] - bv[k])) / scale)
+            for k, r in rb.items():
+                resid[k].append(r)
+        c_last, v_last = c, v
     except (NotImplementedError, ValueError) as e:
         res.outcome = f"refused:{str(e)[:40]}"
         res.nontrivial = False
@@ -105,19 +287,64 @@ def evaluate(case):
         res.fail(f"solve/crash/{type(e).__name__}/{cls}", f"{where}: {type(e).__name__}: {str(e)[:200]}")
         return res
     floor = 1e-13
+    need = requirement(case)
+    plus = plus_requirement(case)
     info = {}
     allzero = True
+    deficit, deficit_plus, settled = {}, {}, {}
+    failed = {"exponent": [], "exponent+1": []}
     for k, rr in resid.items():
-        ok, inf = scaling.judge(rr, n, floor=floor)
+        ok, inf = scaling.judge(rr, need, floor=floor)
         info[k] = inf
         if any(r > floor for r in rr):
             allzero = False
         if not ok:
-            res.fail(f"exponent/{cls}", f"{where} channel {k}: residual to the central operator does not vanish like a_s^{n}: {inf}")
+            failed["exponent"].append((k, inf))
         if "last_two" in inf:
-            info[f"max_deficit_{k}"] = max(0.0, n - min(inf["last_two"]))
-    res.info = {"max_deficit": max([v for kk, v in info.items() if kk.startswith("max_deficit_")] or [0.0]), "detail": info}
-    res.outcome = f"{sv}:n={n}:{'does-nothing' if allzero else 'varies'}"
+            info[f"max_deficit_{k}"] = max(0.0, need - min(inf["last_two"]))
+            deficit[k] = info[f"max_deficit_{k}"]
+            if abs(inf["last_two"][0] - inf["last_two"][1]) < 0.15:
+                # what the failure rule looks at: a pair that has settled fails when its larger member is more than 0.25 short
+                settled[k] = max(0.0, need - max(inf["last_two"]))
+        if plus is not None:
+            ok, inf = scaling.judge(rr, plus, floor=floor)
+            if not ok:
+                failed["exponent+1"].append((k, inf))
+            if "last_two" in inf:
+                deficit_plus[k] = max(0.0, plus - min(inf["last_two"]))
+    for family, items in failed.items():
+        pure = {sector(k) for k, _ in items} - {"mixed"}
+        for k, inf in items:
+            if sector(k) == "mixed" and pure:
+                continue  # explained by the pure sector(s) reported below
+            usable = [e for e in inf["exponents"] if e is not None]
+            conv = int(round(usable[-1])) if usable and "non-finite" not in inf.get("reason", "") else "none"
+            sig = f"{family}/{cls}/sector={sector(k)}/conv={conv}"
+            if family == "exponent" and case["sv"] == "expanded" and "aem_ratio" in case and case["order"][1] >= 2:
+                # the entry of the two recorded defects: keep their signature only for failures that follow the closed form
+                model = pinned_model(case, sector(k), c_last, v_last, LAMBDAS[-1]) if conv == 1 else None
+                sig += f"/model={model}" if model else "/beyond-known"
+            if family == "exponent":
+                res.fail(sig, f"{where} channel {k}: residual to the central operator does not vanish like a_s^{need}: {inf}")
+            else:
+                res.fail(
+                    sig,
+                    f"{where} channel {k}: the exponentiated scheme re-expands the anomalous dimensions through order {plus - 1}, so without thresholds "
+                    f"the residual must vanish like a_s^{plus}; it has converged to a lower power (wrong top-order compensation term): {inf}",
+                )
+    # measured maxima = head-room of the tolerances on what passes: the sectors that fail (recorded defects; also their channels that are
+    # still drifting, and the mixed channels) are counted as failures, not here
+    bad = {}
+    for fam, items in failed.items():
+        secs = {sector(k) for k, _ in items} | ({"mixed"} if items else set())
+        bad[fam] = {k for k in resid if sector(k) in secs}
+    res.info = {"max_deficit": max([0.0] + [d for k, d in deficit.items() if k not in bad["exponent"]]), "detail": info}
+    res.info["max_deficit_settled"] = max([0.0] + [d for k, d in settled.items() if k not in bad["exponent"]])
+    if bad["exponent"]:
+        res.info["deficit_of_failing_channels"] = max(d for k, d in deficit.items() if k in bad["exponent"])
+    if plus is not None:
+        res.info["max_deficit_plus"] = max([0.0] + [d for k, d in deficit_plus.items() if k not in bad["exponent+1"]])
+    res.outcome = f"{sv}:n={need}{'+1' if plus is not None else ''}:{'does-nothing' if allzero else 'varies'}"
     res.nontrivial = not allzero
     return res
 
@@ -141,10 +368,24 @@ def run(ctx):
                 cases.append(dict(order=order, sv=sv, xif2=1.0, method="iterate-exact", path="ffns", em_running=run_))
                 for x2 in xif2s:
                     cases.append(dict(order=order, sv=sv, xif2=x2, method="iterate-exact", path="ffns", em_running=run_))
+        # threshold crossing (upward): the threshold operator skips the expanded factor, the exponentiated scheme shifts the
+        # coupling thresholds and re-expands the matching; quick: NLO only
+        for order in ([1, 0], [2, 0], [3, 0]) if ctx.thorough() else ([2, 0],):
+            for x2 in xif2s + [1.0]:
+                cases.append(dict(order=order, sv=sv, xif2=x2, method="truncated", path="wall"))
+        # alpha_em proportional to alpha_s: running alpha_em (its alpha_em terms are compensated for m = 2) and fixed alpha_em
+        # (documented: only alpha_s is varied); quick: fixed only at (2,2), xi^2 = 4
+        for order in ([1, 2], [2, 2]) + (([2, 1],) if ctx.thorough() else ()):
+            for run_ in (True, False):
+                for x2 in xif2s:
+                    if not run_ and not ctx.thorough() and (order != [2, 2] or x2 != 4.0):
+                        continue
+                    cases.append(dict(order=order, sv=sv, xif2=x2, method="iterate-exact", path="ffns", em_running=run_, aem_ratio=AEM_RATIO))
         if ctx.thorough():
-            for order in ([1, 0], [2, 0], [3, 0]):
-                for x2 in xif2s + [1.0]:
-                    cases.append(dict(order=order, sv=sv, xif2=x2, method="truncated", path="wall"))
+            # backward evolution across the threshold (inverse matching) combined with both schemes
+            for order in ([2, 0], [3, 0]):
+                for x2 in (0.25, 4.0, 1.0):
+                    cases.append(dict(order=order, sv=sv, xif2=x2, method="truncated", path="wall-down"))
             for order in ([2, 0], [3, 0]):
                 for x2 in (0.25, 4.0):
                     cases.append(dict(order=order, sv=sv, xif2=x2, method="truncated", path="ffns", extra=dict(polarized=True)))
@@ -155,10 +396,17 @@ def run(ctx):
     ctx.rule = (
         f"schemes expanded/exponentiated x QCD orders 1-4 (2 methods) and QED x QCD orders {qed_orders} (alpha_em fixed and running) x "
         f"xi^2 in {xif2s} plus xi=1 (bitwise), fixed-flavour evolution 5 -> 50 GeV"
-        + (" + one threshold crossing + polarised/time-like" if ctx.thorough() else "")
-        + "; each case = one configuration with its 6-step coupling ladder; non-trivial = the scheme changes the operator"
+        + (" + threshold crossing 4 -> 5 at orders 1-3 and 5 -> 4 (backward) at orders 2, 3 + polarised/time-like" if ctx.thorough() else " + threshold crossing 4 -> 5 at NLO")
+        + f"; QED orders (1,2), (2,2){', (2,1)' if ctx.thorough() else ''} again with alpha_em = {AEM_RATIO} lambda (running; fixed: "
+        + ("all" if ctx.thorough() else "(2,2) at xi^2 = 4")
+        + "); each case = one configuration with its 6-step coupling ladder, 3 + 9 channels (+5 photon blocks on the joint ladder); non-trivial = the scheme changes the operator"
     )
     ctx.assumptions += [
-        "asymptotic-window rule: fails only if the last two local exponents are both below n-0.25 and agree to 0.15 (or are a full unit short)",
-        "QED cards use alpha_em = 1e-10: only the a_s axis of the QED code path is judged",
+        "asymptotic-window rule: fails only if the last two local exponents are both below n-0.25 and agree to 0.15 (or are a full unit short); "
+        "max_deficit = n - min(last two) over all passing channels (includes channels still drifting after a sign change of the residual, e.g. 0.68 at "
+        "NNLO exponentiated across the threshold downward), max_deficit_settled = n - max(last two) over pairs that agree to 0.15 (must stay below 0.25)",
+        "QED cards without `aem_ratio` use alpha_em = 1e-10: only the a_s axis of the QED code path is judged there",
+        "joint ladder (alpha_em = 0.12 lambda): 'perturbative order' is read as min(n, m), the power through which the anomalous dimensions are complete",
+        "family exponent+1 (exponentiated scheme, no threshold): derived from the definition of the scheme, see the module docstring; "
+        "same asymptotic-window rule with n+1 (joint ladder: min(n, m)+1)",
     ]
